@@ -471,6 +471,127 @@ def run():
             ck.disagreement("dialect %s, %s context: literal %s changed the statement's token structure: %s" % (d, sk, pgm[3]["lit"], toks[:10]),
                             {"kind": "context-tokens", "dialect": d, "skeleton": sk, "value": value, "src": pgm[0], "sql": sql, "tokens": toks[:14], "expected": want[:14]}, cl_string)
 
+    # ------------------------------------------------------------ 6. hook verif:literal: EVERY call of translate_literal, in statements with
+    #      many literals in many positions (case, ??, in, text.*, relation literals, joins, f-strings, date.to_text, all literal kinds),
+    #      for every dialect: (a) the flags the call consulted are the ones the translator read from dialect.rs, (b) the SQL text it
+    #      returned is Model/Literal.v emit_rlit of the literal it received, (c) every string literal of the source reached it,
+    #      (d) the statement's token structure is that of the same program with placeholders, values substituted
+    rich = sp.rich_programs(ck.rng, ck.n(72, 720), [v for v in vals_pool if "\x00" not in v])
+    PFX = "verif:literal "
+    lreqs = [{"src": src, "target": "sql." + d, "want": [], "msg_prefix": PFX.strip()} for (_, src, _, _, _) in rich for d in ALL_DIALECTS]
+    lans = harness("log", lreqs)
+    preqs = [{"src": ph, "target": "sql." + d} for (_, _, ph, _, _) in rich for d in ALL_DIALECTS]
+    pans = harness("compile", preqs)
+    calls = {}          # (sqlite, bs, json of lit) -> out
+    per = []            # (program, dialect, answer, entries, placeholder answer)
+    k = 0
+    n_entries = 0
+    for pgm in rich:
+        for d in ALL_DIALECTS:
+            a, pa = lans[k], pans[k]; k += 1
+            ents = []
+            for e in a.get("entries", []):
+                m = e.get("Message")
+                if m and m.startswith(PFX):
+                    ents.append(json.loads(m[len(PFX):]))
+            n_entries += len(ents)
+            per.append((pgm, d, a, ents, pa))
+            for e in ents:
+                calls.setdefault((e["sqlite"], e["bs"], json.dumps(e["lit"], sort_keys=True)), e)
+    ck.coverage["literal_hook_entries"] = n_entries
+    ck.coverage["literal_hook_distinct_calls"] = len(calls)
+    if rich and n_entries == 0:
+        ck.violation("the hook verif:literal produced no entry for %d programs full of literals (hook missing from the tree?)" % len(rich), {"kind": "hook-missing", "src": rich[0][1]})
+
+    def rlit_term(lit):
+        if lit == "Null":
+            return "RNull"
+        (tag, v), = lit.items()
+        if tag == "Integer":
+            return "(RInt (%d)%%Z)" % v
+        if tag == "Float":
+            return "RFloat"
+        if tag == "Boolean":
+            return "(RBool %s)" % ("true" if v else "false")
+        if tag in ("String", "RawString"):
+            return "(RString %s)" % coq_codes(v)
+        if tag in ("Date", "Time", "Timestamp"):
+            return "(R%s %s)" % (tag, coq_codes(v))
+        if tag == "ValueAndUnit":
+            return "RValueAndUnit"
+        raise KeyError(tag)
+    ckeys = sorted(calls, key=lambda x: (x[2], x[0], x[1]))
+    model_out = {}
+    if model_ok and ckeys:
+        try:
+            B = 60
+            exprs = ["[%s]" % "; ".join("emit_rlit %s %s %s" % ("true" if s_ else "false", "true" if b_ else "false", rlit_term(json.loads(l_))) for (s_, b_, l_) in ckeys[i:i + B])
+                     for i in range(0, len(ckeys), B)]
+            flat = [x for v in coq_eval(HEADER, exprs) for x in v]
+            model_out = dict(zip(ckeys, flat))
+        except RuntimeError as ex:
+            ck.coverage["model_eval_error_hook"] = str(ex)[-600:]
+    for key in ckeys:
+        e = calls[key]
+        lit = e["lit"]
+        tag = "Null" if lit == "Null" else list(lit)[0]
+        ck.count("literal-hook", "%s|%s|%s" % key, nontrivial=(tag in ("String", "RawString") and ("'" in lit[tag] or "\\" in lit[tag])))
+        ck.stat("literal-hook", tag)
+        if key not in model_out:
+            continue
+        m = model_out[key]
+        if m == "None":
+            ck.stat("literal-hook", "not-modelled:" + tag)
+            if tag not in ("Float", "ValueAndUnit"):
+                ck.violation("model emit_rlit has no output for a %s literal" % tag, {"kind": "hook-model", "entry": e})
+            continue
+        mo = s_of(m[1])
+        if e["out"] != mo:
+            ck.violation("translate_literal returned %r for %r (sqlite=%s, bs=%s); the model says %r" % (e["out"], lit, e["sqlite"], e["bs"], mo),
+                         {"kind": "hook-model", "entry": e, "model": mo})
+    # per statement
+    tq, tmeta = [], []
+    for (pgm, d, a, ents, pa) in per:
+        name, src, ph, svals, phs = pgm
+        ck.count("literal-hook-stmt", d + "|" + src, nontrivial=any("'" in v or "\\" in v for v in svals))
+        ck.stat("literal-hook-stmt", name)
+        case = {"kind": "hook-stmt", "skeleton": name, "dialect": d, "src": src, "value": "".join(svals)}
+        if "ok" not in a:
+            if "ok" in pa:
+                case["compile"] = {k_: v_ for k_, v_ in a.items() if k_ != "entries"}
+                ck.violation("program compiles with placeholder literals but not with the real ones for %s" % d, case)
+            else:
+                ck.stat("literal-hook-stmt", "unsupported:" + name)
+            continue
+        for e in ents:
+            if e["sqlite"] != (d == "sqlite") or e["bs"] != writer_bs[d]:
+                ck.violation("translate_literal consulted sqlite=%s bs=%s for dialect %s; dialect.rs says sqlite=%s bs=%s" % (e["sqlite"], e["bs"], d, d == "sqlite", writer_bs[d]), dict(case, entry=e))
+            if e["out"] is not None and e["out"] not in a["ok"].replace("\n", " ") and e["out"] not in a["ok"]:
+                ck.violation("the text translate_literal returned (%r) is not part of the statement" % e["out"], dict(case, entry=e, sql=a["ok"]))
+        if name != "datefmt":
+            logged = [e["lit"].get("String", e["lit"].get("RawString")) for e in ents if isinstance(e["lit"], dict) and ("String" in e["lit"] or "RawString" in e["lit"])]
+            pool = list(logged)
+            for v in svals:
+                if v in pool:
+                    pool.remove(v)
+                else:
+                    ck.violation("string literal %r of the source did not pass through translate_literal for %s (logged: %s)" % (v, d, logged[:8]), dict(case, sql=a["ok"]))
+                    break
+            if "ok" in pa:
+                tq.append({"sql": a["ok"], "dialect": d}); tq.append({"sql": pa["ok"], "dialect": d}); tmeta.append((pgm, d, a["ok"], pa["ok"]))
+    tks = harness("c08_tok", tq)
+    for j, (pgm, d, sql, phsql) in enumerate(tmeta):
+        name, src, ph, svals, phs = pgm
+        toks, ptoks = canon_tok(tks[2 * j]), canon_tok(tks[2 * j + 1])
+        sub = dict(zip(phs, svals))
+        want = [((1, sub[tv]) if (tk == 1 and tv in sub) else (tk, tv)) for tk, tv in ptoks]
+        if sum(1 for tk, tv in ptoks if tk == 1 and tv in sub) != len(phs):
+            ck.violation("placeholder statement does not carry every placeholder as one string token (%s)" % d, {"kind": "hook-stmt-ref", "dialect": d, "src": ph, "sql": phsql})
+            continue
+        if toks != want:
+            ck.disagreement("dialect %s, %s statement: the literals changed the statement's token structure" % (d, name),
+                            {"kind": "hook-stmt-tokens", "dialect": d, "skeleton": name, "value": "".join(svals), "values": svals, "src": src, "sql": sql, "tokens": toks[:30], "expected": want[:30]}, cl_string)
+
     ck.proof_broken_violation(found_input=bool(ck.violations))
     ck.assumptions += ["NUL characters are excluded from executed strings (SQLite's API ends the statement text at NUL)",
                        "float spellings in the end-to-end stream are exact in binary64 or have at most 17 significant digits",
